@@ -208,6 +208,10 @@ func (e *endpoint) dispatch() (bool, *tcpip.Error) {
 	if err != nil {
 		return false, err
 	}
+	// end of file (the other end of a socket or pipe is gone): nothing more will arrive
+	if n == 0 {
+		return false, nil
+	}
 	//如果比头部长度还小，直接丢弃
 	if n <= e.hdrSize {
 		log.Printf("@链路层 fdbased: read %d bytes < header bytest %d,比头部长度还小直接丢弃", n, e.hdrSize)
